@@ -343,6 +343,7 @@ class MoneyMarket(FinancialAssetMarket):
         dem_name = 'DEM_' + self.Code
         self.AddVariable(dem_name, 'Total demand for ' + self.LongName,'')
         dem_terms = []
+        self._CheckIssuer()
         for s in self.SearchListSource.GetSectors():
             if not s.HasF:
                 continue
@@ -401,6 +402,7 @@ class DepositMarket(FinancialAssetMarket):
         """
         dem_terms = []
         dem_name = 'DEM_' + self.Code
+        self._CheckIssuer()
         for s in self.SearchListSource.GetSectors():
             if isinstance(s, Market):
                 continue
